@@ -195,7 +195,8 @@ def gen_tth(rng, n):
     ops = [[1, 0, 20], [1, 30000, 20], [1, 10, 40]]
     for _ in range(n):
         ops.append([1, rng.choice([0, 0, 20000, 60000, 5]), rng.choice([10, 25, 40])])
-    return [Case("tth", "th0", ops[:3]), Case("tth", "th1", ops[3:] + [[1, 5]])]
+    race = [Case("tth", "thr0", [[2, 0]]), Case("tth", "thr1", [[2, 30000]]), Case("tth", "thr2", [[2, 0], [2, 60000], [2, 5]])]
+    return [Case("tth", "th0", ops[:3]), Case("tth", "th1", ops[3:] + [[1, 5]])] + race
 
 
 def gen(seed, tier):
